@@ -11,7 +11,7 @@ import json
 from vlib import common, histcheck, miri
 
 MODULE = "TriompheModel.Props.C03"
-EXTRA = ["TriompheModel.Props.C03Sched", "TriompheModel.Props.Gates"]
+EXTRA = ["TriompheModel.Props.C03Sched", "TriompheModel.Props.Gates", "TriompheModel.WM.Later"]
 TAGS = ["C03"]
 WEIGHTS = dict(isUnique=12, getMut=12, getUnique=8, tryUnique=10, tryUnwrap=6, writeSlot=10, cb=14, makeMut=6, clone=16, conv=14)
 PROGRAMS_QUICK = ["poll_get_mut_write"]
@@ -40,6 +40,10 @@ def schedule_search(ctx, prop, bad, lean_failed):
         ctx.coverage["search_runs"] = len(more)
     body = ["Lean obligations on the regenerated gate facts that no longer check: %s" % lean_failed,
             "generated facts: " + json.dumps(ctx.coverage.get("generated_facts")), ""]
+    try:
+        body += [common.wm_search(ctx, common.regen_facts(ctx))[1], ""]
+    except Exception as e:
+        body += ["model-side search failed to run: %s" % e, ""]
     if bad:
         r = bad[0]
         body += ["failing input: Miri litmus program `%s` with -Zmiri-seed=%d:" % (r["program"], r["seed"]), "  replay: " + r["cmd"], r["report"]]
